@@ -43,6 +43,16 @@ def gen_cases(rng, n, max_depth, exhaustive_children=False):
                         and not any(x["name"] == "anc" for x in nd["children"][0]["resources"])):     # (a repeated routine declares no resources of its own)
                     kid = nd["children"][0]
                     kid["resources"].insert(rng.randrange(len(kid["resources"]) + 1), {"name": "anc", "type": "qubits", "value": E.num(rng.randint(1, 4))})
+        if rng.random() < 0.25:
+            # a cost written over the bare NAME of another resource of the same routine (t_gates: 4*toffolis + ...): the name is no
+            # parameter, it stays the symbol it is, wherever the two resources are listed
+            cands = [nd for nd, _ in H._nodes(r) if len(nd["resources"]) >= 2 and not nd.get("repetition")]
+            if cands:
+                nd = rng.choice(cands)
+                a, b = rng.sample(nd["resources"], 2)
+                taken = set(nd["input_params"]) | {l[0] for l in nd["local_variables"]} | {p["size"][1] for p in nd["ports"] if p["size"] and p["size"][0] == "s"}
+                if b["name"] not in taken and a["type"] in ("additive", "other"):
+                    a["value"] = E.op("add", a["value"], E.op("mul", E.num(4), E.sym(b["name"])))
         if exhaustive_children and 2 <= len(r["children"]) <= 4:
             for perm in itertools.permutations(range(len(r["children"]))):
                 out.append({"routine": r, "seed": rng.randint(0, 10**9), "child_perm": list(perm)})
